@@ -62,6 +62,14 @@ BUILT = {
             '40-step histories incl. extend/pop/setdefault/clear and checks the order seen by the ZINC/JSON writers.',
             'Model semantics for relocation by numeric index follow the implementation (doc-string silent).',
             'DESIGN.md 3/C16'),
+    'C17': ('exhaustive enumeration over mapped zones x pytz transition table x deltas x microseconds x formats; fixed-offset/alias/custom tzinfo catalogue; hypothesis instants',
+            'For all 366 mapped zones, every tabulated UTC transition (thorough: all ~23k; quick: first 3 + last 6 per zone) '
+            '+-{0,1 s,30 min} x three microsecond values x both formats, the written date-time must read back with the same '
+            'instant, offset and Haystack zone name and the text must carry that name; map laws are checked for every name. '
+            'Every whole-minute fixed offset -14h..+14h, pytz alias zones and a custom DST tzinfo at ambiguous/skipped/ordinary '
+            'local times must give a zone of equal offset and equal instant, or ValueError - nothing else.',
+            'Trusts pytz as the zone database and its transition table as the list of transitions.',
+            'DESIGN.md 3/C17'),
     'C18': ('exhaustive enumeration of version-string pairs/triples + hypothesis strings against an independent reference key',
             'All 864,900 ordered pairs over 930 version strings (padding x suffix) are compared with an independently written '
             'reference order for trichotomy, six-operator agreement, string operands on both sides, hash/set/dict behaviour, '
